@@ -40,7 +40,8 @@ for cname, ident in (("sha256_crypt", "$5$"), ("sha512_crypt", "$6$")):
                  params={"cls": cls, "hash": Const(None), "R": Str(), "S": Str(), "C": Str()},
                  setup=lambda it, a, _i=ident: {"hash": cat(it, a, _i, "rounds=", "R", "$", "S", "$", "C")},
                  requires=[NODOLLAR.format("R"), NODOLLAR.format("S"), NODOLLAR.format("C"), "len(C) > 0", DIGITS.format("R")],
-                 ensures=[("fields of ident + 'rounds=' + R + '$' + S + '$' + C", "result.rounds == int(R) and result.salt == S and result.checksum == C and result.implicit_rounds is False")], **base),
+                 ensures=[("fields of ident + 'rounds=' + R + '$' + S + '$' + C", "result.rounds == int(R) and result.salt == S and result.checksum == C and result.implicit_rounds is False"),
+                          ("the digest reaches the constructor together with salt and rounds: their validators are strict exactly when a digest is present (C08)", "'checksum' in result.__kwds__")], **base),
         Contract(f"{cname}.from_string[explicit rounds, config]", f"{S2}::_SHA2_Common.from_string",
                  params={"cls": cls, "hash": Const(None), "R": Str(), "S": Str()},
                  setup=lambda it, a, _i=ident: {"hash": cat(it, a, _i, "rounds=", "R", "$", "S")},
@@ -50,7 +51,8 @@ for cname, ident in (("sha256_crypt", "$5$"), ("sha512_crypt", "$6$")):
                  params={"cls": cls, "hash": Const(None), "S": Str(), "C": Str()},
                  setup=lambda it, a, _i=ident: {"hash": cat(it, a, _i, "S", "$", "C")},
                  requires=[NODOLLAR.format("S"), NODOLLAR.format("C"), "len(C) > 0", "not S.startswith('rounds=')"],
-                 ensures=[("fields of ident + S + '$' + C: 5000 implicit rounds", "result.rounds == 5000 and result.salt == S and result.checksum == C and result.implicit_rounds is True")], **base),
+                 ensures=[("fields of ident + S + '$' + C: 5000 implicit rounds", "result.rounds == 5000 and result.salt == S and result.checksum == C and result.implicit_rounds is True"),
+                          ("the digest reaches the constructor together with salt and rounds (C08)", "'checksum' in result.__kwds__")], **base),
         Contract(f"{cname}.from_string[implicit rounds, config]", f"{S2}::_SHA2_Common.from_string",
                  params={"cls": cls, "hash": Const(None), "S": Str()},
                  setup=lambda it, a, _i=ident: {"hash": cat(it, a, _i, "S")},
